@@ -3,6 +3,7 @@
 From Coq Require Import ZArith String List Bool.
 From Verif Require Import C17.Model C17.Spec.
 From VerifGen Require Import GenTags.
+From VerifGen Require GenIds.
 Import ListNotations.
 Open Scope string_scope.
 
@@ -25,3 +26,21 @@ Qed.
 Lemma uninteresting_is_published :
   all_in uninteresting_tags published_uninteresting && all_in published_uninteresting uninteresting_tags = true.
 Proof. vm_compute. reflexivity. Qed.
+
+(* [fid] is what the id methods of package osm compute (gen/GenIds.v, regenerated from node.go,
+   way.go, relation.go, feature.go on every run): Member.FeatureID() by member type,
+   Node/Way/Relation.FeatureID() by element *)
+Lemma fid_is_member_feature_id r :
+  GenIds.Member_FeatureID "node" r = Some (fid TNode r) /\
+  GenIds.Member_FeatureID "way" r = Some (fid TWay r) /\
+  GenIds.Member_FeatureID "relation" r = Some (fid TRel r).
+Proof. repeat split. Qed.
+Lemma fid_is_element_feature_id r :
+  GenIds.Node_FeatureID r = fid TNode r /\ GenIds.Way_FeatureID r = fid TWay r /\
+  GenIds.Relation_FeatureID r = fid TRel r.
+Proof. repeat split. Qed.
+(* Type() answers one of the three names or "" *)
+Lemma etype_of_name_names :
+  etype_of_name "node" = TNode /\ etype_of_name "way" = TWay /\ etype_of_name "relation" = TRel /\
+  etype_of_name "" = TNone.
+Proof. repeat split. Qed.
